@@ -88,6 +88,12 @@ class _KeysGetItem:
         return self._d[k]
 
 
+def exp_args(e):
+    """positional arguments of an expected-call string  repr((args, kwargs))"""
+    import ast
+    return ast.literal_eval(e)[0]
+
+
 def cbk(kind):
     """callback kind as recorded in traces / known to the model: 'sfut' (a plain callback returning a future) is a 'sync' one"""
     return "sync" if kind in ("sfut", "sobj", "swrap") else "async" if kind == "amark" else kind
@@ -428,7 +434,8 @@ class PoolRun:
         if shape == 3:
             # `args` is any iterable of positional arguments: a list, or a string (unpacked into its characters)
             return ("pq" if r % 2 else ["l%d" % r, 7]), {}
-        return ("a%d" % r, "b%d" % r), {"k": "v%d" % r}
+        # (keyword names that also are parameter names inside the library)
+        return ("a%d" % r, "b%d" % r), {"k": "v%d" % r, "func": "f%d" % r, "group_name": "gn%d" % r, "self": r}
 
     def elements(self, r, tpl):
         kind, n = tpl["kind"], tpl["num"]
@@ -441,6 +448,9 @@ class PoolRun:
             exp = [repr((x, {})) for x in els]
             els = [x if (r + j) % 4 == 0 else list(x) if (r + j) % 4 == 1 else _GetItemSeq(x) if (r + j) % 4 == 2 else "".join(x)
                    for j, x in enumerate(els)]
+            # ... a dict, too, is unpacked with * (into its keys)
+            els = [dict.fromkeys(exp_args(e)) if (r + j) % 5 == 4 and len(set(map(str, exp_args(e)))) == len(exp_args(e)) and isinstance(x, tuple) else x
+                   for j, (x, e) in enumerate(zip(els, exp))]
         else:
             els = [{"x": "e%d_%d" % (r, j), "y": j} for j in range(n)]
             exp = [repr(((), x)) for x in els]
